@@ -213,3 +213,22 @@ def literal_queries3():
 # ---------------------------------------------------------------------------------------------------------
 def rank_tables(nW, maxrank):
     return itertools.product(range(maxrank + 1), repeat=nW)
+
+
+# ---------------------------------------------------------------------------------------------------------
+# a four-atom family: chains / bridges between atoms (relevance is transitive: (c|a) may follow from (b|a), (d|b), (c|a,d))
+# ---------------------------------------------------------------------------------------------------------
+SIG4 = ["a", "b", "c", "d"]
+d = V("d")
+A4 = [(b, a), (a, b), (c, b), (d, b), (d, c), (c, A(a, d)), (d, A(a, c)), (N(c), a), (N(d), c), (c, d), (N(b), d), (a, TOP)]
+
+
+def literal_queries4():
+    lits = [V(x) for x in SIG4] + [N(V(x)) for x in SIG4]
+    out = [(l, m) for l in lits for m in lits if _at(l) != _at(m)]
+    for l in lits[:4]:
+        others = [m for m in lits if _at(m) != _at(l)]
+        for m, k in itertools.combinations(others, 2):
+            if _at(m) != _at(k):
+                out.append((l, A(m, k)))
+    return out
